@@ -28,9 +28,9 @@ SOFT_LIMIT = {"quick": 240, "thorough": 1500}
 REQUIRED_FUNCS = ["sempler/utils.py:split_data"]
 REQUIRED_COUNTERS = {"quick": {"accepted": 20000, "float-sum-not-1": 300, "rejected-as-expected": 200, "tie-sizes": 300, "determinism-checked": 5000,
                                "shuffle-checked": 1000, "rows-tracked": 500000},
-                     "thorough": {"accepted": 100000, "float-sum-not-1": 1000, "rejected-as-expected": 200, "tie-sizes": 3000, "determinism-checked": 50000,
-                                  "shuffle-checked": 10000, "rows-tracked": 2000000}}
-SEEDS = {"quick": 3, "thorough": 8}
+                     "thorough": {"accepted": 100000, "float-sum-not-1": 500, "rejected-as-expected": 200, "tie-sizes": 3000, "determinism-checked": 50000,
+                                  "shuffle-checked": 5000, "rows-tracked": 2000000}}
+SEEDS = {"quick": 3, "thorough": 24}
 
 
 def compositions(m, parts):
